@@ -1,6 +1,16 @@
-"""C08: AXI-Lite shared interconnect / crossbar, G-mode (one direction per configuration)."""
+"""C08: AXI-Lite and AXI4 shared interconnect / crossbar / arbiter / decoder, G-mode (one direction per
+configuration).  The AXI4 (axi_full.py) batches run in a child process beside the AXI-Lite ones."""
+import json
+import multiprocessing as mp
+import os
+import traceback
+
+from .. import gcheck
 from ..gcheck import GFamily, run_batches
+from ..graphloop import GraphLoop
+from ..report import Report, MachineryError, ROOT, load_findings
 from ..families import axilic as fam
+from ..families import axiic as axi
 
 INVS = ["RoutedByAddress", "WFollowsItsAW", "DataExactlyOnce", "ResponseToIssuerInOrder", "FrozenWhileOutstanding",
         "ValidHold", "WValidHold"]
@@ -15,14 +25,179 @@ FAMILY = GFamily("axilic/AxiLiteIcGraph", "axilic/AxiLiteIcTrace", "harness.fami
                      (", timeout=%s" % s["timeout"] if s.get("timeout") else "") +
                      (", data before address" if s.get("earlyw") else "") +
                      (", other slave while outstanding" if s.get("xslave") else "")))
+# AXI4 (full): same clause names, judged by specs/axilic/AxiIcContract.tla
+AXI_FAMILY = GFamily("axilic/AxiIcGraph", "axilic/AxiIcTrace", "harness.families.axiic:make", hint=axi.Hint(),
+                     fmt="hash", clause_map=CM, describe=axi.describe)
+NOTES = os.path.join(ROOT, "notes", "C08b_findings.json")
+
+
+def notes_findings(prop, path=NOTES):
+    """findings of the notes file that /verif/known_findings.json does not list yet (by id): lets the check run
+    before the main agent has merged the notes"""
+    if not os.path.exists(path):
+        return []
+    have = {f.get("id") for f in load_findings()}
+    with open(path) as fh:
+        return [f for f in json.load(fh) if f.get("id") not in have and f.get("property") == prop]
+
+
+# ------------------------------------------------------------------------------------------------ AXI4 lane
+class _HarvestLoop(GraphLoop):
+    """GraphLoop that keeps the edges of the DUTs of every run that ended without a violation.  With
+    spec_budget=0 every edge was requested by TLC, i.e. is reachable in the product with the environment:
+    the witness counters below are computed from them (vacuity guard and evidence only, no verdict)."""
+    harvested = []
+
+    def __init__(self, *a, **kw):
+        # the lane runs beside the main process: small stepper pool (a few thousand edges per round at most)
+        kw.setdefault("workers", 4)
+        super().__init__(*a, **kw)
+
+    def close(self):
+        if self.final is not None and not self.final.violated:
+            for g in self.duts:
+                ev = [(g.alphabet[k], o) for e in g.succ for k, (o, _) in e.items() if k in g.alphabet]
+                _HarvestLoop.harvested.append((g.spec, g.cfg, ev))
+        super().close()
+
+
+def axi_witnesses(cfg, edges):
+    """counts, over the reachable edges of one DUT, of the situations the AXI4 contract is about"""
+    n, m, wr = cfg["n"], cfg["m"], cfg["dir"] == "w"
+    w = dict.fromkeys(["address_stalled", "data_stalled", "response_stalled", "beat_without_last", "beat_with_last",
+                       "response_id0", "response_id1", "address_without_data", "slave2_accepts", "master2_answered"], 0)
+    for iv, o in edges:
+        for i in range(n):
+            c = iv[i]
+            av, wv, wl, rr = c & 1, (c >> 5) & 1, (c >> 6) & 1, (c >> 7) & 1
+            aready, wready, rvalid, _, rid, rlast = o[6 * i:6 * i + 6]
+            w["address_stalled"] += bool(av and not aready)
+            w["data_stalled"] += bool(wv and not wready)
+            w["response_stalled"] += bool(rvalid and not rr)
+            w["address_without_data"] += bool(wr and av and aready and not wv)
+            if wr and wv and wready:
+                w["beat_with_last" if wl else "beat_without_last"] += 1
+            if rvalid and rr:
+                w["response_id%d" % rid] += rid in (0, 1)
+                if not wr:
+                    w["beat_with_last" if rlast else "beat_without_last"] += 1
+                if i == 1:
+                    w["master2_answered"] += 1
+        if m > 1:
+            so = o[6 * n + 9:6 * n + 18]
+            w["slave2_accepts"] += bool(so[0] and iv[n + 1] & 1)
+    return w
+
+
+def _axi_lane(conn, prop, tier, seed, findings):
+    try:
+        from .. import py312_tracer
+        py312_tracer.install()
+        gcheck.GraphLoop = _HarvestLoop
+        rep = Report(prop, "%s-axi4" % tier, seed)
+        rep.findings = findings
+        log = lambda msg: print("[axi4] %s" % msg, flush=True)      # noqa
+        groups = axi.configs(tier)
+        stats = []
+        # DUTs without arbitration: any traffic.  DUTs with an arbiter: traffic with gaps (cfg gaps=1) - under
+        # back-to-back traffic the round-robin that only moves on an idle bus starves a master (listed finding,
+        # shown by the "back-to-back traffic" demonstrations below).  Liveness clause of all of them: Served.
+        b = groups["all"] + groups["arb"]
+        per = 8 if tier == "quick" else 5
+        stats += run_batches(AXI_FAMILY, rep, [b[i:i + per] for i in range(0, len(b), per)], INVS, ["Served"], log=log,
+                             spec_budget=0, total_budget=0)
+        nmain = len(stats)
+        # demonstrations of the listed findings, one DUT per run
+        run_batches(AXI_FAMILY, rep, [[x] for x in groups["demo"]], INVS, ["Served"], log=log, spec_budget=0, total_budget=0)
+        # vacuity guard
+        total = {}
+        per = []
+        for spec, cfg, ev in _HarvestLoop.harvested:
+            w = axi_witnesses(cfg, ev)
+            per.append({"dut": axi.describe(spec), "witnesses": w})
+            if spec.get("nofollowup"):
+                continue
+            for k, v in w.items():
+                total[(cfg["dir"], k)] = total.get((cfg["dir"], k), 0) + v
+            need = ["beat_without_last", "beat_with_last", "response_id0", "response_id1", "response_stalled"]
+            zero = [k for k in need if not w[k]]
+            if zero:
+                raise MachineryError("vacuous AXI4 run: %s never saw %s" % (axi.describe(spec), ", ".join(zero)))
+        if not rep.violations:
+            zero = sorted("%s/%s" % k for k, v in total.items() if not v and not (k[0] == "r" and k[1] in (
+                "data_stalled", "address_without_data")))
+            if zero or len([1 for s, _, _ in _HarvestLoop.harvested if not s.get("nofollowup")]) != nmain:
+                raise MachineryError("vacuous AXI4 run: witness counters at zero: %s" % ", ".join(zero))
+        rep.add(axi4_duts_explored=nmain, axi4_per_dut=stats, axi4_witnesses=per)
+        conn.send({"cov": rep.cov, "violations": rep.violations, "known_hit": rep.known_hit, "notes": rep.notes})
+    except MachineryError as ex:
+        conn.send({"error": "[axi4] %s" % ex})
+    except Exception:
+        conn.send({"error": "[axi4] %s" % traceback.format_exc()[-3000:]})
+    finally:
+        conn.close()
+
+
+def start_lane(target, args):
+    import sys
+    sys.stdout.flush()
+    sys.stderr.flush()
+    ctx = mp.get_context("fork")
+    pc, cc = ctx.Pipe(duplex=False)
+    p = ctx.Process(target=target, args=(cc,) + tuple(args))
+    p.start()
+    cc.close()
+    return p, pc
+
+
+def join_lane(report, lane, label, timeout=7200):
+    p, pc = lane
+    try:
+        r = pc.recv() if pc.poll(timeout) else {"error": "[%s] lane timed out" % label}
+    except EOFError:
+        r = {"error": "[%s] lane died without a result" % label}
+    p.join(10)
+    if p.is_alive():
+        p.terminate()
+    if "error" in r:
+        raise MachineryError(r["error"])
+    cov = r["cov"]
+    for s_ in cov.pop("samples", []):
+        report.sample(s_, cap=12)
+    report.add(**cov)
+    report.violations.extend(r["violations"])
+    for k in r["known_hit"]:
+        if k not in report.known_hit:
+            report.known_hit.append(k)
+    report.notes.extend(r["notes"])
 
 
 def run(prop, report, tier, seed):
-    cfgs = fam.configs(tier, "C08")
-    report.assume("AXI4-Lite masters/slaves hold valid and payload until ready; write data may precede, accompany or "
-                  "follow its address; up to k outstanding requests per master and per slave; write and read "
-                  "directions are explored separately (the interconnect keeps separate state per direction)")
-    stats = run_batches(FAMILY, report, [cfgs[i:i + 4] for i in range(0, len(cfgs), 4)], INVS, PROPS,
-                        spec_budget=0, total_budget=0)
-    report.add(duts_explored=len(stats), clauses=INVS + PROPS, per_dut=stats)
+    report.findings = list(report.findings) + notes_findings(report.prop)
+    # AXI4 (full) twins: own process, beside the AXI-Lite batches
+    lane = None
+    if os.environ.get("VERIF_NO_AXI4"):          # development aid (timing of the AXI-Lite part alone); the evidence says so
+        report.note("AXI4 batches skipped by VERIF_NO_AXI4")
+    else:
+        lane = start_lane(_axi_lane, (prop, tier, seed, report.findings))
+    try:
+        cfgs = fam.configs(tier, "C08")
+        report.assume("AXI4-Lite masters/slaves hold valid and payload until ready; write data may precede, accompany or "
+                      "follow its address; up to k outstanding requests per master and per slave; write and read "
+                      "directions are explored separately (the interconnect keeps separate state per direction)")
+        report.assume("AXI4 (axi_full.py): bursts of 1-2 beats (len 0/1), ids from a 2-value set, masters send write data "
+                      "bursts in address order with exactly len+1 beats; slaves answer in acceptance order (no re-ordering "
+                      "between ids, no read interleaving), B only after the address and the last data beat")
+        if os.environ.get("VERIF_ONLY_AXI4"):      # development aid (mutation tests of axi_full.py); the evidence says so
+            report.note("restricted to the AXI4 batches by VERIF_ONLY_AXI4")
+            cfgs = []
+        stats = run_batches(FAMILY, report, [cfgs[i:i + 4] for i in range(0, len(cfgs), 4)], INVS, PROPS,
+                            spec_budget=0, total_budget=0)
+        report.add(duts_explored=len(stats), clauses=INVS + PROPS, per_dut=stats)
+    except BaseException:
+        if lane:
+            lane[0].terminate()
+        raise
+    if lane:
+        join_lane(report, lane, "axi4")
     report.cov["exhaustive"] = True
